@@ -214,6 +214,7 @@ func buildProperties() []Property {
 				{"R-ENUM-TOTAL", 15, ruleEnumTotal},
 				{"R-PANIC-BARRIER", 4, rulePanicBarrier},
 				{"R-ERR-ISO", 250, ruleErrIso},
+				{"R-LOOKAHEAD", 20, ruleLookahead},
 			},
 		},
 	}
